@@ -17,6 +17,7 @@ def build_registry():
     sortmodel.install(reg)
     polymodel.install(reg)      # (numpy.array: polymodel's axiom covers index vectors too)
     polymodel.install_clean(reg)
+    polymodel.install_align(reg)
     for c in ALL_CONTRACTS.values():
         def model(ex, args, kw, node, _c=c):
             ex.reg.used.add("contract:" + _c.name)
@@ -87,6 +88,24 @@ PROPS = {
     "C02": dict(level="other", contracts=[], explanation="Bounded run-time contracts only so far (conc/checks_c02.py): exact "
                 "evaluation/substitution oracle; the contract of poly_function.call is not yet under the VC generator.",
                 trusted_base=COMMON_TRUSTED, assumptions=["machine integer arithmetic outside int64 is out of scope (numpy semantics)"]),
+    "C04": dict(
+        level="other",
+        contracts=["numpoly.align_shape", "numpoly.align_exponents", "numpoly.align_polynomials"],
+        trusted_base=COMMON_TRUSTED + [
+            "assumed contract of align_indeterminants (rank-sorted union of names, column scatter): bounded check only",
+            "contract of polynomial_from_attributes (proved under C03) and the ndpoly accessor model",
+            "numpy axioms: broadcast_shapes, ones, ufunc broadcasting, vstack, unique(axis=0), tolist, dict get"],
+        assumptions=["bridge axioms B1, B2, B4 (definition of the abstract value under cleaning, broadcasting and addition of "
+                     "all-zero terms); each use is preceded by obligations establishing its premises on the real code",
+                     "variadic *polys: arities 1..3 (align_shape: 1..2) enumerated for the proof; higher arities bounded"],
+        explanation="align_shape: every rebuilt operand is built from its own exponents/names and from coefficients that are the "
+                    "broadcast copies (obligation at coefficient level), dtype kept (ones of dtype bool), unchanged operands only "
+                    "when their shape already is the common one. align_exponents: results are fresh, retain every term and name, "
+                    "share rows and names, each term of an operand is present with its coefficient (explicit position witness through "
+                    "vstack/unique) and all other rows are zero. align_polynomials: composition. Arguments are never written "
+                    "(frame obligations at every write). Idempotence, argument order, name-union order: bounded run-time check.",
+        not_decided=["align_indeterminants body (bounded only)", "idempotence clause (bounded only)"],
+    ),
     "C05": dict(level="other", contracts=[], explanation="Bounded run-time contracts only so far (conc/checks_c05.py): identity "
                 "dividend == q*divisor + r in exact arithmetic, termination with iteration counter and state-repeat detection, "
                 "operator routing; division loop invariant/variant not yet under the VC generator.", trusted_base=COMMON_TRUSTED),
